@@ -1,5 +1,5 @@
-import PbVerif.Lemmas.JsonTextRoundJ4
-import PbVerif.Lemmas.JsonTextFails
+import PbVerif.Lemmas.JsonTextRoundJM3
+import PbVerif.Lemmas.JsonTextFailsM
 /-
 C20 — protojson round-trips every JSON-representable message (tree level; Model/JsonText.lean).
 
@@ -11,18 +11,18 @@ record `JOpts` carries them for completeness and the theorems hold for ALL value
 combinations.  The tree-level theorems compose with the lexical round trip `parse (print v) = v` of engine
 jsonlex (C21): its laws are the hypothesis `JLaws` (never an axiom).
 
-PROVED (`…_partial`): for ALL schemas, messages and limits in the fragment `RepMsg wfScalarJ`:
+PROVED (`…_partial`): for ALL schemas, messages and limits in the fragment `RepMsgM`:
   singular scalars of every kind (64-bit integers as strings, 32-bit as numbers, bool, enum by name or by number,
   string, bytes/base64, float/double incl. NaN/±Infinity), presence disciplines (explicit, implicit with the
-  zero value suppressed, required), repeated fields, nested messages and groups to any depth ≤ RecursionLimit,
+  zero value suppressed, required), repeated fields, MAP fields (keys as strings through `k.String()` /
+  `unmarshalMapKey`, entries printed in `GenericKeyOrder`, re-inserted with the duplicate-key check never firing,
+  message values included), nested messages and groups to any depth ≤ RecursionLimit,
   oneofs (seenOneofs), extensions (`[full.name]` keys), UseProtoNames / UseEnumNumbers, EmitUnpopulated /
   EmitDefaultValues (null, [], {}, zero values are printed and change nothing on input), json_name vs proto
   name, duplicate detection (seenNums) never firing on the encoder's output, unknown fields dropped,
   NaNs as one value.
 
 OUTSIDE the fragment (statements kept above; covered by the implementation-level check of the harness only):
-  * map fields that are *populated* (unpopulated map fields are inside: `{}`); the model has them (`jEntries`,
-    `sortK`, `dEntries`) and the harness compares them, the proof of `fromJSON_toJSON` does not cover them yet;
   * fields of type google.protobuf.Value / NullValue (DESIGN finding 18: under EmitUnpopulated the full statement
     is FALSE for them — `pb2.KnownTypes{}`), the other well-known types and Any (delegated to engine wktjson);
   * MessageSets; required-field checking (the harness uses AllowPartial);
@@ -45,9 +45,9 @@ resolve to their own field, consistent presence flags — checked on every corpu
 record `o`, every decoder option record `D`, every limit and every message of the fragment:
 `Unmarshal(Marshal(m))` succeeds and yields `m` without unknown fields (NaNs as one value). -/
 theorem fromJSON_toJSON_partial (C : JCodec) (L : JLaws C) (D : DOpts) (X : SchemaX) (o : JOpts)
-    (hS : SchemaJ X o) (mi : Nat) (limit : Int) (m : Msg) (hrep : RepMsg wfScalarJ X mi limit m) :
+    (hS : SchemaJ X o) (mi : Nat) (limit : Int) (m : Msg) (hrep : RepMsgM X mi limit m) :
     ∃ jv, toJSON C o X mi m = .ok jv ∧ fromJSON C D X mi limit jv = .ok (normMsg X mi m) := by
-  obtain ⟨jv, h1, _, h2⟩ := rtJ_msg C D X o hS L m mi limit hrep
+  obtain ⟨jv, h1, _, h2⟩ := rtJM_msg C D X o hS L m mi limit hrep
   exact ⟨jv, h1, h2⟩
 
 /-- the hypotheses are satisfiable by a non-trivial message: `{1: 5, 2: {1: 7}}` of a two-message schema -/
@@ -68,7 +68,7 @@ theorem oneofExcl_of_none (d : MsgX) (fs : Fields) (h : ∀ fx ∈ d.fields, fx.
   rw [this] at h5
   cases h5
 
-example : RepMsg wfScalarJ exSchema 0 100 exMsg := by
+example : RepMsgM exSchema 0 100 exMsg := by
   have e0 : OneofExcl (exSchema.msg 0) (.cons 1 (.one (.num 5)) (.cons 2 (.one (.msg (.mk (.cons 1 (.one (.num 7)) .nil) []))) .nil)) :=
     oneofExcl_of_none _ _ (by decide)
   have e1 : OneofExcl (exSchema.msg 1) (.cons 1 (.one (.num 7)) .nil) := oneofExcl_of_none _ _ (by decide)
@@ -77,14 +77,14 @@ example : RepMsg wfScalarJ exSchema 0 100 exMsg := by
   exact ⟨by decide, rfl, rfl, e0, by decide, ⟨by decide, by decide, v5, by decide⟩, by decide,
     ⟨by decide, by decide, ⟨rfl, by decide, rfl, rfl, e1, by decide, ⟨by decide, by decide, v7, by decide⟩, trivial⟩, by decide⟩, trivial⟩
 
-/-- **`toJSON_fails_iff_partial`**: for a message of the right *shape* (as the fragment, but strings may hold any
-bytes), `Marshal` fails IFF the message is not representable — some string, in a field that enforces UTF-8 or
+/-- **`toJSON_fails_iff_partial`**: for a message of the right *shape* (`ShapeMsgM`: as the fragment `RepMsgM`,
+populated maps included, but strings — map keys and values too — may hold any bytes), `Marshal` fails IFF the message is not representable — some string, in a field that enforces UTF-8 or
 not, is invalid UTF-8 — and then with the invalid-UTF-8 error; otherwise it succeeds. -/
 theorem toJSON_fails_iff_partial (C : JCodec) (X : SchemaX) (o : JOpts) (mi : Nat) (limit : Int) (m : Msg)
-    (hshape : RepMsg wfShapeJ X mi limit m) :
-    ((∃ e, toJSON C o X mi m = .error e) ↔ ¬ RepMsg wfScalarJ X mi limit m) ∧
+    (hshape : ShapeMsgM X mi limit m) :
+    ((∃ e, toJSON C o X mi m = .error e) ↔ ¬ RepMsgM X mi limit m) ∧
     (∀ e, toJSON C o X mi m = .error e → e = .utf8) := by
-  rcases failsJ_msg C o X m mi limit hshape with ⟨jv, hj, hrep⟩ | ⟨he, hnrep⟩
+  rcases failsJM_msg C o X m mi limit hshape with ⟨jv, hj, hrep⟩ | ⟨he, hnrep⟩
   · refine ⟨⟨?_, fun h => absurd hrep h⟩, ?_⟩
     · rintro ⟨e, h⟩
       unfold toJSON at h
